@@ -578,6 +578,40 @@ package ech
 //@   check[F:errors-not-cached] err != nil && cache != nil && !fresh(v) ==> v.expiration == old(v.expiration) && v.result == old(v.result)
 //@   ensures[F:one-upstream-call] reqcount(0) <= old(reqcount(0)) + 1
 
+//@ func Resolver.resolveTarget returns (err)
+//@   requires r != nil && res != nil
+//@   modifies rpos, closed, reqcount(0), gclock(0), all(cacheValue.expiration), all(cacheValue.result), res.Additional, mapOf(res.Additional)
+//@   allocates dns.Message, retryablehttp.Request, http.Request, retryablehttp.Client, http.Response, cacheValue
+//@   terminates
+//@   ensures[F:two-queries] reqcount(0) <= old(reqcount(0)) + 2
+//@   ensures[S:additional] res.Additional != nil && (res.Additional == old(res.Additional) || fresh(res.Additional))
+
+//@ func Resolver.Resolve returns (result, err)
+//@   requires r != nil
+//@   modifies rpos, closed, reqcount(0), gclock(0), all(cacheValue.expiration), all(cacheValue.result)
+//@   allocates dns.Message, retryablehttp.Request, http.Request, retryablehttp.Client, http.Response, cacheValue, url.URL
+//@   terminates
+//@   at "want := svcbName" assert[F:svcb-name] cid(svcbName) == ite(int(result.Port) != 80 && int(result.Port) != 443, fmtId("_%d._%s.%s", result.Port, scheme, name),
+//@       ite(!bytesEq(scheme, "https"), fmtId("_%s.%s", scheme, name), cid(name)))
+//@   at "want := svcbName" assert[F:host-validated] len(name) <= 255 && maxPart(cid(name), cid(".")) <= 63
+//@   callsite "r.resolveOne(ctx, want, \"HTTPS\")" requires[F:alias-chain-bounded] len(seen) <= 4 && seen[want] && (len(seen) == 1 ==> want == svcbName)
+//@   callsite "r.resolveOne(ctx, want, \"A\")" requires[F:address-name] want != svcbName || want == name
+//@   ensures[F:bounded-queries] reqcount(0) <= old(reqcount(0)) + 4 + 2*len(result.HTTPS) + 2
+//@   ensures[F:by-priority] err == nil ==> forall(i, 0, len(result.HTTPS), forall(k, i, len(result.HTTPS), int(result.HTTPS[i].Priority) <= int(result.HTTPS[k].Priority)))
+//@   loop 1 "range strings.Split(name"
+//@     invariant forall(t, 0, ri1, len(rx1[t]) <= 63, trig(rx1[t]))
+//@   loop 3 ""
+//@     invariant[F:queries] seen != nil && fresh(seen) && len(seen) <= 4 && reqcount(0) <= entry(reqcount(0)) + len(seen) && isnil(result.HTTPS) && len(result.HTTPS) == 0 && result.Additional == nil && (len(seen) == 0 ==> want == svcbName) && forall(k, has(seen, k) ==> seen[k])
+//@     decreases 5 - len(seen)
+//@   loop 4 "range https"
+//@     invariant[F:queries] reqcount(0) == entry(reqcount(0)) && len(result.HTTPS) == ri4 && result.Additional == nil
+//@   loop 5 "range result.HTTPS"
+//@     invariant[F:queries] reqcount(0) <= entry(reqcount(0)) + 2*ri5 && (result.Additional == nil || fresh(result.Additional)) && result.HTTPS == entry(result.HTTPS)
+//@   loop 6 "range a"
+//@     invariant[F:queries] reqcount(0) == entry(reqcount(0)) && result.HTTPS == entry(result.HTTPS)
+//@   loop 7 "range aaaa"
+//@     invariant[F:queries] reqcount(0) == entry(reqcount(0)) && result.HTTPS == entry(result.HTTPS)
+
 // ResolveResult.Targets: the iterator body is verified together with the function (iterbody); every call of yield
 // and of the local closure add is a call-site obligation.
 //@ ghost ycount(k any) int
